@@ -797,10 +797,10 @@ def _norm_marker(x, ren):
     if isinstance(x, (bytes, bytearray)):
         def rb(m):
             return b"#" + str(ren("m", int(m.group(1)))).encode() + b"#"
-        x = _re.sub(rb"^#(\d+)#", rb, bytes(x))
+        x = _re.sub(rb"#(\d{6})#", rb, bytes(x))   # anywhere: a desynchronised stream delivers packets as payload
         def rb2(m):
             return b"<" + str(ren("i", int(m.group(1)))).encode() + b">"
-        return _re.sub(rb"^<(\d+)>", rb2, x)
+        return _re.sub(rb"<(\d{6})>", rb2, x)
     if isinstance(x, str):
         def rs(m):
             return m.group(1) + str(ren("m", int(m.group(2)))) + "/"
